@@ -88,6 +88,17 @@ func corpus3(r *Run, variants int, fn func(w *W, v *spec.V3, L int, rng *rand.Ra
 	})
 }
 
+// oneTransposition renders v at level with exactly two tokens exchanged, preferring two tokens of the same width.
+func oneTransposition(v *spec.V3, level int, rng *rand.Rand) string {
+	toks := v.Tokens(level)
+	i, j := rng.IntN(len(toks)), rng.IntN(len(toks))
+	for try := 0; try < 6 && (i == j || len(toks[i]) != len(toks[j])); try++ {
+		i, j = rng.IntN(len(toks)), rng.IntN(len(toks))
+	}
+	toks[i], toks[j] = toks[j], toks[i]
+	return "CVSS:" + spec.V3Versions[v.Ver] + "/" + strings.Join(toks, "/")
+}
+
 // corpus2 yields all 73,629 v2 base/temporal vectors, each without and with a seeded environmental group.
 func corpus2(r *Run, envVariants int, fn func(w *W, v *spec.V2, rng *rand.Rand)) {
 	r.Parallel(nBase2*101, 32, func(w *W, idx int) {
@@ -134,8 +145,11 @@ func checkFields3(w *W, v *spec.V3, L int, rng *rand.Rand, pairs *atomic.Int64) 
 			}
 		}
 		s4, s5 := render3(&va, D, nil), render3(&vo, D, rng)
+		// the fully spelled canonical vector with exactly two tokens exchanged (a decoder that reads a complete
+		// vector by position keeps its layout when the two tokens have the same width)
+		s6 := oneTransposition(&va, D, rng)
 		var first string
-		for i, s := range []string{s1, s2, s3, s4, s5} {
+		for i, s := range []string{s1, s2, s3, s4, s5, s6} {
 			w.Eval(1)
 			o, err, pan := lib.DecodeAuto(k, s)
 			if pan != nil || err != nil || o.IsNil() {
@@ -434,6 +448,16 @@ func runC14(r *Run) int {
 		nt.Add(1)
 		toks := toks3(v, L, rng, rng.IntN(3) > 0)
 		prefix := "CVSS:" + spec.V3Versions[v.Ver]
+		if nt.Load()%4 == 0 {
+			// every fourth vector fully spelled at its level, in canonical order but for two exchanged tokens
+			va := *v
+			for mi := spec.E; mi < spec.V3LevelEnd(L); mi++ {
+				if va.M[mi] < 0 {
+					va.M[mi] = 0
+				}
+			}
+			toks = strings.Split(oneTransposition(&va, L, rng), "/")[1:]
+		}
 		s := join3(prefix, toks)
 		proj := func(level int) string {
 			var t []string
